@@ -367,7 +367,42 @@ func init() {
 		b := websocket.FormatCloseMessage(int(a[0].(Int).C), concStr(g, a[1]))
 		return blobBytes(b)
 	})
-	reg(wsPkg+".IsCloseError", func(g *G, fr *Frame, fn *ssa.Function, a []Value) Value { return Bool{C: false} })
+	closeCode := func(g *G, v Value) (int, bool) {
+		e, _ := v.(Iface)
+		t := g.run.P.NamedType(wsPkg, "CloseError")
+		if e.T == nil || !types.Identical(e.T, types.NewPointer(t)) {
+			return 0, false
+		}
+		p, _ := e.V.(*Value)
+		if p == nil {
+			return 0, false
+		}
+		return int(fieldByName(t, (*p).(Struct), "Code").(Int).C), true
+	}
+	reg(wsPkg+".IsCloseError", func(g *G, fr *Frame, fn *ssa.Function, a []Value) Value {
+		code, ok := closeCode(g, a[0])
+		if !ok {
+			return Bool{C: false}
+		}
+		for _, c := range a[1].(Slice) {
+			if int(c.(Int).C) == code {
+				return Bool{C: true}
+			}
+		}
+		return Bool{C: false}
+	})
+	reg(wsPkg+".IsUnexpectedCloseError", func(g *G, fr *Frame, fn *ssa.Function, a []Value) Value {
+		code, ok := closeCode(g, a[0])
+		if !ok {
+			return Bool{C: false}
+		}
+		for _, c := range a[1].(Slice) {
+			if int(c.(Int).C) == code {
+				return Bool{C: false}
+			}
+		}
+		return Bool{C: true}
+	})
 	reg("(*"+wsPkg+".CloseError).Error", func(g *G, fr *Frame, fn *ssa.Function, a []Value) Value {
 		return S("websocket: close error")
 	})
